@@ -133,12 +133,12 @@ def _limit_endpoint(
     s_l: torch.Tensor,
     s_r: torch.Tensor,
 ) -> torch.Tensor:
-    # If derivative points opposite to the first secant, zero it
-    mask_sign_change = d_end * s_l < 0
+    # If derivative does not have the sign of the first secant, zero it
+    mask_sign_change = torch.sign(d_end) != torch.sign(s_l)
     d_end = torch.where(mask_sign_change, torch.zeros_like(d_end), d_end)
 
     # If secants switch sign, cap magnitude to 3*|s_l|
-    mask_sign_change = s_l * s_r < 0
+    mask_sign_change = torch.sign(s_l) != torch.sign(s_r)
     mask_cap = mask_sign_change & (torch.abs(d_end) > 3.0 * torch.abs(s_l))
     return torch.where(mask_cap, 3.0 * s_l, d_end)
 
